@@ -455,6 +455,37 @@ func (h H) segmentWalks(rule string) {
 		})
 		h.C.Check(rule+" visits-every-segment", "(*log.Log).Reset step", r.OK, h.fpos(rs), "an iteration of Reset's walk can complete without advancing to first.next: "+r.Witness)
 	}
+	// Reset creates the new segment only after every old one is gone:
+	// openSegment adopts an existing file of that name, so opening first maps
+	// the old, populated segment when the reset index is one of the old
+	// segments' boundaries
+	if hd := core.LoopHeaders(rs); len(hd) == 1 {
+		osg := h.fn("log:openSegment")
+		car := h.fn("log:(*segment).closeAndRemove")
+		for k, c := range h.P.CallsTo(rs, osg) {
+			in := c.(ssa.Instruction)
+			after := !core.InLoop(hd[0], in.Block()) && in.Block() != hd[0] && hd[0].Dominates(in.Block())
+			// no removal reachable after it
+			reach := false
+			seen := map[*ssa.BasicBlock]bool{}
+			stack := append([]*ssa.BasicBlock{}, in.Block().Succs...)
+			for len(stack) > 0 {
+				b := stack[len(stack)-1]
+				stack = stack[:len(stack)-1]
+				if seen[b] {
+					continue
+				}
+				seen[b] = true
+				for _, x := range b.Instrs {
+					if h.P.IsCallTo(x, car) {
+						reach = true
+					}
+				}
+				stack = append(stack, b.Succs...)
+			}
+			h.C.Check(rule+" reset-removes-before-create", h.site(rs, osg, k), after && !reach, h.pos(in), "Reset opens the new segment before all old segments are removed (an old segment with the same name would be adopted, then unlinked)")
+		}
+	}
 	// Commit() is CommitN(everything)
 	cm := h.fn("log:(*Log).Commit")
 	cn := h.fn("log:(*Log).CommitN")
